@@ -118,13 +118,14 @@ class MarginLoans(base.LendingStrategy):
         """
         assert self._exchange_ctx, "Not yet connected with the exchange"
         acc_balances = self._exchange_ctx.account_balances
-        return self._calculate_margin_level(
+        margin_level = self._calculate_margin_level(
             acc_balances.balances, acc_balances.holds, acc_balances.borrowed
         )
+        return Decimal(0) if margin_level is None else margin_level
 
     def _calculate_margin_level(
             self, updated_balances: ValueMapDict, updated_holds: ValueMapDict, updated_borrowed: ValueMapDict
-    ) -> Decimal:
+    ) -> Optional[Decimal]:
         assert self._exchange_ctx and self._loan_mgr, "Not yet connected with the exchange"
 
         # Calculate used margin.
@@ -134,7 +135,8 @@ class MarginLoans(base.LendingStrategy):
         used_margin_by_symbol = margin_requirements * updated_borrowed
         used_margin = self._exchange_ctx.prices.convert_value_map(used_margin_by_symbol, self._quote_symbol)
         if used_margin == Decimal(0):
-            return Decimal(0)
+            # Nothing borrowed. This is different from a margin level of 0, which means no equity at all.
+            return None
 
         # Calculate outstanding interest.
         interest_by_symbol = ValueMap()
@@ -169,7 +171,7 @@ class MarginLoans(base.LendingStrategy):
             return
 
         margin_level = self._calculate_margin_level(updated_balances, updated_holds, updated_borrowed)
-        if margin_level > Decimal(0) and margin_level < Decimal(100):
+        if margin_level is not None and margin_level < Decimal(100):
             raise errors.NotEnoughBalance(f"Margin level too low {margin_level}")
 
 
